@@ -18,17 +18,17 @@ open Model
 variable {K : Type} [Field K] [LinearOrder K] [IsStrictOrderedRing K] (sq : K → K)
 
 /-- first parameter of `[0,max]` at which the curve `pt` is in `S` (`none`: there is none) -/
-def FirstHit (S : V3 K → Prop) (pt : K → V3 K) (max : K) : Option K → Prop
+def FirstHit {α : Type} (S : α → Prop) (pt : K → α) (max : K) : Option K → Prop
   | some t => 0 ≤ t ∧ t ≤ max ∧ S (pt t) ∧ ∀ s, 0 ≤ s → s < t → ¬ S (pt s)
   | none => ∀ s, 0 ≤ s → s ≤ max → ¬ S (pt s)
 
 /-- `FirstHit` on the unbounded ray `[0,+∞)` -/
-def FirstHitU (S : V3 K → Prop) (pt : K → V3 K) : Option K → Prop
+def FirstHitU {α : Type} (S : α → Prop) (pt : K → α) : Option K → Prop
   | some t => 0 ≤ t ∧ S (pt t) ∧ ∀ s, 0 ≤ s → s < t → ¬ S (pt s)
   | none => ∀ s, 0 ≤ s → ¬ S (pt s)
 
 /-- the ray starts in `S` and leaves it for good at parameter `t` -/
-def ExitHit (S : V3 K → Prop) (pt : K → V3 K) (t : K) : Prop :=
+def ExitHit {α : Type} (S : α → Prop) (pt : K → α) (t : K) : Prop :=
   0 ≤ t ∧ (∀ s, 0 ≤ s → s ≤ t → S (pt s)) ∧ ∀ s, t < s → ¬ S (pt s)
 
 theorem quad_root (a b c w s : K) (hw : w * w = b * b - a * c) :
@@ -904,6 +904,238 @@ theorem aabbN_cases (big : K) (b : Aabb K) (ray : Ray3 K) (max : K) (solid : Boo
             exact Or.inr (Or.inr (Or.inr (Or.inr ⟨not_lt.1 h1, not_le.1 h2, hres.symm⟩)))
   · simp only [Aabb.castLocalRayAndGetNormal, hclip, Option.some.injEq] at hres
     exact Or.inr ⟨hres.symm, hno⟩
+
+
+/-! ## segment (2-D) helpers -/
+
+/-- `f64::EPSILON` in `K` -/
+def epsK (K : Type) [Field K] : K := ((mkRat 1 4503599627370496 : ℚ) : K)
+
+/-- `ulps_eq!` in exact arithmetic: only the absolute clause `|a − b| ≤ ε` is meaningful (there are no ulps) -/
+@[reducible] def fieldUlps (K : Type) [Field K] [LinearOrder K] [IsStrictOrderedRing K] : UlpsEq K where
+  ulpsEq a b := decide (|a - b| ≤ epsK K)
+
+theorem epsK_pos : 0 < epsK K := by
+  unfold epsK; norm_num
+theorem epsK_lt_one : epsK K < 1 := by
+  unfold epsK; norm_num
+
+/-- the curve of a 2-D ray -/
+def rayPt2 (ray : Ray2 K) : K → V2 K := fun s =>
+  letI := fieldNum K sq
+  ray.pointAt s
+
+/-- 2-D cross product -/
+def perp2 (u v : V2 K) : K := u.x * v.y - u.y * v.x
+
+/-- if the ray point at `s` is the segment point `a + t(b−a)`: Cramer in 2-D -/
+theorem seg_mem_facts (a b : V2 K) (ray : Ray2 K) (s t : K) :
+    letI := fieldNum K sq
+    rayPt2 sq ray s = a.add ((b.sub a).smul t) →
+    s * perp2 ray.d (b.sub a) = -perp2 (ray.o.sub a) (b.sub a) ∧
+    t * perp2 ray.d (b.sub a) = -perp2 (ray.o.sub a) ray.d := by
+  obtain ⟨ax, ay⟩ := a; obtain ⟨bx, b_y⟩ := b; obtain ⟨⟨ox, oy⟩, ⟨dx, dy⟩⟩ := ray
+  simp only [rayPt2, Ray2.pointAt, V2.add, V2.sub, V2.smul, V2.mk.injEq, perp2]
+  rintro ⟨hx, hy⟩
+  constructor
+  · linear_combination (b_y - ay) * hx - (bx - ax) * hy
+  · linear_combination dy * hx - dx * hy
+
+/-- polynomial identities behind the 2-D line–line intersection -/
+theorem seg_poly (rx ry dx dy ex ey : K) :
+    let aa := dx * dx + dy * dy; let e := ex * ex + ey * ey; let f := ex * rx + ey * ry
+    let c := dx * rx + dy * ry; let bq := dx * ex + dy * ey; let den := aa * e - bq * bq
+    e * den * rx + e * (bq * f - c * e) * dx - (bq * (bq * f - c * e) + f * den) * ex = 0 ∧
+    e * den * ry + e * (bq * f - c * e) * dy - (bq * (bq * f - c * e) + f * den) * ey = 0 ∧
+    den = (dx * ey - dy * ex) * (dx * ey - dy * ex) := by
+  refine ⟨by ring, by ring, by ring⟩
+
+/-- the closest-point parameters of two non-parallel lines in the plane are those of their intersection point -/
+theorem seg_nonparallel_point (a b : V2 K) (ray : Ray2 K) (s t : K) :
+    letI := fieldNum K sq
+    let E := b.sub a; let r := ray.o.sub a
+    let aa := ray.d.normSq; let e := E.normSq; let f := E.dot r; let c := ray.d.dot r; let bq := ray.d.dot E
+    let denom := aa * e - bq * bq
+    denom ≠ 0 → e ≠ 0 → s = (bq * f - c * e) / denom → t = (bq * s + f) / e →
+    rayPt2 sq ray s = a.add (E.smul t) := by
+  obtain ⟨ax, ay⟩ := a; obtain ⟨bx, b_y⟩ := b; obtain ⟨⟨ox, oy⟩, ⟨dx, dy⟩⟩ := ray
+  simp only [rayPt2, Ray2.pointAt, V2.add, V2.sub, V2.smul, V2.mk.injEq, V2.normSq, V2.dot]
+  intro hden he hs ht
+  obtain ⟨p1, p2, _⟩ := seg_poly (ox - ax) (oy - ay) dx dy (bx - ax) (b_y - ay)
+  generalize (dx * dx + dy * dy) * ((bx - ax) * (bx - ax) + (b_y - ay) * (b_y - ay)) -
+      (dx * (bx - ax) + dy * (b_y - ay)) * (dx * (bx - ax) + dy * (b_y - ay)) = den at *
+  generalize (bx - ax) * (bx - ax) + (b_y - ay) * (b_y - ay) = e at *
+  have hs' : s * den = (dx * (bx - ax) + dy * (b_y - ay)) * ((bx - ax) * (ox - ax) + (b_y - ay) * (oy - ay)) -
+      (dx * (ox - ax) + dy * (oy - ay)) * e := by rw [hs]; field_simp
+  have ht' : t * e = (dx * (bx - ax) + dy * (b_y - ay)) * s + ((bx - ax) * (ox - ax) + (b_y - ay) * (oy - ay)) := by
+    rw [ht]; field_simp
+  have hne : e * den ≠ 0 := mul_ne_zero he hden
+  constructor
+  · have : e * den * (ox + dx * s - (ax + (bx - ax) * t)) = 0 := by
+      linear_combination p1 + e * dx * hs' - den * (bx - ax) * ht' - (dx * (bx - ax) + dy * (b_y - ay)) * (bx - ax) * hs'
+    rcases mul_eq_zero.1 this with h | h
+    · exact absurd h hne
+    · linarith
+  · have : e * den * (oy + dy * s - (ay + (b_y - ay) * t)) = 0 := by
+      linear_combination p2 + e * dy * hs' - den * (b_y - ay) * ht' - (dx * (bx - ax) + dy * (b_y - ay)) * (b_y - ay) * hs'
+    rcases mul_eq_zero.1 this with h | h
+    · exact absurd h hne
+    · linarith
+
+theorem defaultEps_eq : @defaultEps K (fieldNum K sq) = epsK K := rfl
+
+/-- `closest_points_line_line_parameters_eps` in the regime `ε < |d1|²`, `ε < |d2|²`, `ε < denom` -/
+theorem cp_nonparallel (o1 d1 o2 d2 : V2 K) :
+    letI := fieldNum K sq
+    letI := fieldUlps K
+    let r := o1.sub o2; let a := d1.normSq; let e := d2.normSq; let f := d2.dot r; let c := d1.dot r; let b := d1.dot d2
+    let denom := a * e - b * b
+    epsK K < a → epsK K < e → epsK K < denom →
+    closestPointsLineLineParametersEps2 o1 d1 o2 d2 defaultEps =
+      ((b * f - c * e) / denom, (b * ((b * f - c * e) / denom) + f) / e, false) := by
+  intro r a e f c b denom ha he hden
+  simp only [closestPointsLineLineParametersEps2, defaultEps_eq]
+  have hnle : ¬ (denom ≤ epsK K) := not_le.2 hden
+  have hu : ¬ (|a * e - b * b| ≤ epsK K) := by
+    rw [abs_of_pos (lt_trans (epsK_pos) hden)]; exact not_le.2 hden
+  have h2 : ¬ (a ≤ epsK K) := not_le.2 ha
+  have h3 : ¬ (e ≤ epsK K) := not_le.2 he
+  simp only [r, a, e, f, c, b, denom] at hnle hu h2 h3 ⊢
+  simp [h2, h3, hnle, hu, UlpsEq.ulpsEq]
+
+/-- squared 2-D cross product = Gram determinant -/
+theorem perp2_sq (u v : V2 K) :
+    letI := fieldNum K sq
+    perp2 u v * perp2 u v = u.normSq * v.normSq - u.dot v * u.dot v := by
+  simp only [perp2, V2.normSq, V2.dot]; ring
+
+
+/-- `closest_points_line_line_parameters_eps` flags exactly parallel lines (`denom = 0`) as parallel -/
+theorem cp_parallel (o1 d1 o2 d2 : V2 K) :
+    letI := fieldNum K sq
+    letI := fieldUlps K
+    epsK K < d1.normSq → epsK K < d2.normSq → d1.normSq * d2.normSq - d1.dot d2 * d1.dot d2 ≤ epsK K →
+    (closestPointsLineLineParametersEps2 o1 d1 o2 d2 defaultEps).2.2 = true := by
+  intro ha he hden
+  simp only [closestPointsLineLineParametersEps2, defaultEps_eq]
+  have h2 : ¬ (@V2.normSq K (fieldNum K sq) d1 ≤ epsK K) := not_le.2 ha
+  have h3 : ¬ (@V2.normSq K (fieldNum K sq) d2 ≤ epsK K) := not_le.2 he
+  simp [h2, h3, hden]
+
+/-- the unit normal of a segment longer than `ε`, with `w = sqrt(|E|²)` -/
+theorem seg_normal_eq (hs : LawfulSqrt sq) (s : Segment2 K) :
+    letI := fieldNum K sq
+    epsK K < (s.b.sub s.a).normSq →
+    ∃ w, 0 < w ∧ w * w = (s.b.sub s.a).normSq ∧
+      s.normalOrZero = ⟨(s.b.sub s.a).y / w, -(s.b.sub s.a).x / w⟩ := by
+  intro he
+  have hepos : 0 < @V2.normSq K (fieldNum K sq) (@V2.sub K (fieldNum K sq) s.b s.a) := lt_trans epsK_pos he
+  have hsq : @V2.normSq K (fieldNum K sq) (⟨(@V2.sub K (fieldNum K sq) s.b s.a).y, -(@V2.sub K (fieldNum K sq) s.b s.a).x⟩ : V2 K)
+      = @V2.normSq K (fieldNum K sq) (@V2.sub K (fieldNum K sq) s.b s.a) := by
+    simp only [V2.normSq, V2.dot]; ring
+  refine ⟨sq (@V2.normSq K (fieldNum K sq) (@V2.sub K (fieldNum K sq) s.b s.a)), ?_, hs.sq_mul _ hepos.le, ?_⟩
+  · have h0 := hs.nonneg _ hepos.le
+    have hww := hs.sq_mul _ hepos.le
+    rcases eq_or_lt_of_le h0 with h | h
+    · rw [← h] at hww; linarith
+    · exact h
+  · simp only [Segment2.normalOrZero, defaultEps_eq]
+    rw [hsq]
+    have hlt : epsK K * epsK K < @V2.normSq K (fieldNum K sq) (@V2.sub K (fieldNum K sq) s.b s.a) := by
+      have : epsK K * epsK K < epsK K := by nlinarith [@epsK_pos K _ _ _, @epsK_lt_one K _ _ _]
+      exact lt_trans this he
+    simp only [hlt, if_true]
+    rfl
+
+/-- three vectors of the plane are linearly dependent (2-D Cramer identity) -/
+theorem perp2_cramer (u v w : V2 K) :
+    perp2 u v * w.x + perp2 v w * u.x + perp2 w u * v.x = 0 ∧ perp2 u v * w.y + perp2 v w * u.y + perp2 w u * v.y = 0 := by
+  simp only [perp2]; constructor <;> ring
+
+/-- Lagrange in 2-D: `|v|²|d|² = (v·d)² + (v×d)²` -/
+theorem lagrange2 (v d : V2 K) :
+    letI := fieldNum K sq
+    v.normSq * d.normSq = v.dot d * v.dot d + perp2 v d * perp2 v d := by
+  simp only [perp2, V2.normSq, V2.dot]; ring
+
+/-- collinear configuration (`d ∥ e`, origin on the segment's line): the ray point at `u` is the segment point with
+coordinate `t` iff their coordinates along `d` agree: `u·|d|² = (a−o)·d + t·(e·d)` -/
+theorem seg_collinear_iff (a b : V2 K) (ray : Ray2 K) (u t : K) :
+    letI := fieldNum K sq
+    0 < ray.d.normSq → 0 < (b.sub a).normSq →
+    perp2 ray.d (b.sub a) = 0 → perp2 (ray.o.sub a) (b.sub a) = 0 →
+    (rayPt2 sq ray u = a.add ((b.sub a).smul t) ↔
+      u * ray.d.normSq = (a.sub ray.o).dot ray.d + t * (b.sub a).dot ray.d) := by
+  intro hd he hchi hr
+  -- (o−a) × d = 0
+  have hrd : perp2 (@V2.sub K (fieldNum K sq) ray.o a) ray.d = 0 := by
+    obtain ⟨c1, c2⟩ := perp2_cramer (@V2.sub K (fieldNum K sq) ray.o a) ray.d (@V2.sub K (fieldNum K sq) b a)
+    have hx : perp2 (@V2.sub K (fieldNum K sq) ray.o a) ray.d * (@V2.sub K (fieldNum K sq) b a).x = 0 := by
+      have h3 : perp2 (@V2.sub K (fieldNum K sq) b a) (@V2.sub K (fieldNum K sq) ray.o a) = 0 := by
+        simp only [perp2] at hr ⊢; linarith
+      rw [hchi, h3] at c1; linarith
+    have hy : perp2 (@V2.sub K (fieldNum K sq) ray.o a) ray.d * (@V2.sub K (fieldNum K sq) b a).y = 0 := by
+      have h3 : perp2 (@V2.sub K (fieldNum K sq) b a) (@V2.sub K (fieldNum K sq) ray.o a) = 0 := by
+        simp only [perp2] at hr ⊢; linarith
+      rw [hchi, h3] at c2; linarith
+    by_contra hne
+    have ex : (@V2.sub K (fieldNum K sq) b a).x = 0 := (mul_eq_zero.1 hx).resolve_left hne
+    have ey : (@V2.sub K (fieldNum K sq) b a).y = 0 := (mul_eq_zero.1 hy).resolve_left hne
+    simp only [V2.normSq, V2.dot, ex, ey] at he; linarith
+  obtain ⟨ax, ay⟩ := a; obtain ⟨bx, b_y⟩ := b; obtain ⟨⟨ox, oy⟩, ⟨dx, dy⟩⟩ := ray
+  simp only [rayPt2, Ray2.pointAt, V2.add, V2.sub, V2.smul, V2.mk.injEq, perp2, V2.normSq, V2.dot] at *
+  constructor
+  · rintro ⟨hx, hy⟩
+    linear_combination dx * hx + dy * hy
+  · intro h
+    -- v = (o + u d) − (a + t e); v·d = 0 and v×d = 0 ⇒ v = 0
+    have vd : (ox + dx * u - (ax + (bx - ax) * t)) * dx + (oy + dy * u - (ay + (b_y - ay) * t)) * dy = 0 := by
+      linear_combination h
+    have vp : (ox + dx * u - (ax + (bx - ax) * t)) * dy - (oy + dy * u - (ay + (b_y - ay) * t)) * dx = 0 := by
+      linear_combination hrd + t * hchi
+    have hsq : ((ox + dx * u - (ax + (bx - ax) * t)) * (ox + dx * u - (ax + (bx - ax) * t)) +
+        (oy + dy * u - (ay + (b_y - ay) * t)) * (oy + dy * u - (ay + (b_y - ay) * t))) * (dx * dx + dy * dy) = 0 := by
+      linear_combination ((ox + dx * u - (ax + (bx - ax) * t)) * dx + (oy + dy * u - (ay + (b_y - ay) * t)) * dy) * vd +
+        ((ox + dx * u - (ax + (bx - ax) * t)) * dy - (oy + dy * u - (ay + (b_y - ay) * t)) * dx) * vp
+    have hz := (mul_eq_zero.1 hsq).resolve_right (ne_of_gt hd)
+    have hP : ox + dx * u - (ax + (bx - ax) * t) = 0 := by
+      have := mul_self_nonneg (oy + dy * u - (ay + (b_y - ay) * t))
+      have h2 := mul_self_nonneg (ox + dx * u - (ax + (bx - ax) * t))
+      exact mul_self_eq_zero.1 (le_antisymm (by linarith) h2)
+    have hQ : oy + dy * u - (ay + (b_y - ay) * t) = 0 := by
+      have := mul_self_nonneg (ox + dx * u - (ax + (bx - ax) * t))
+      have h2 := mul_self_nonneg (oy + dy * u - (ay + (b_y - ay) * t))
+      exact mul_self_eq_zero.1 (le_antisymm (by linarith) h2)
+    constructor <;> linarith
+
+
+/-- the parallel branch of the 2-D segment cast -/
+theorem seg_cast_parallel_eq (s : Segment2 K) (ray : Ray2 K) (max : K) (solid : Bool) :
+    letI := fieldNum K sq
+    letI := fieldUlps K
+    (closestPointsLineLineParametersEps2 ray.o ray.d s.a (s.b.sub s.a) defaultEps).2.2 = true →
+    s.castLocalRayAndGetNormal ray max solid =
+      (let segDir := s.b.sub s.a
+       let dpos := s.a.sub ray.o
+       let normal := s.normalOrZero
+       if nabs (dpos.dot normal) < defaultEps then
+         let dist1 := dpos.dot ray.d
+         let dist2 := dist1 + segDir.dot ray.d
+         if 0 ≤ dist1 ∧ 0 ≤ dist2 then
+           let toi := nmin dist1 dist2 / ray.d.normSq
+           if max < toi then none
+           else if dist1 ≤ dist2 then some { toi := toi, n := normal, fkind := 1, fidx := 0 }
+           else some { toi := dist2 / ray.d.normSq, n := normal, fkind := 1, fidx := 1 }
+         else if 0 ≤ dist1 ∨ 0 ≤ dist2 then some { toi := 0, n := normal, fkind := 0, fidx := 0 }
+         else none
+       else none) := by
+  intro hpar
+  simp only [Segment2.castLocalRayAndGetNormal]
+  rcases hcp : @closestPointsLineLineParametersEps2 K (fieldNum K sq) (fieldUlps K) ray.o ray.d s.a (@V2.sub K (fieldNum K sq) s.b s.a) (@defaultEps K (fieldNum K sq)) with ⟨sp, tp, par⟩
+  rw [hcp] at hpar
+  simp only at hpar
+  subst hpar
+  simp only [if_true]
 
 
 end C04
